@@ -8,6 +8,7 @@ import numpy as np
 from common import *
 import ops
 from props import c01, c02
+import revchecks
 
 RULE = ('cases = (operation, D, P>=2, shapes, coefficients with a different base point per direction) from ops.py; '
         'each direction re-evaluated alone; non-trivial = P>=2 and base points of two directions differ; distinct by hash')
@@ -48,6 +49,8 @@ def nontrivial(case):
 
 
 def replay_case(ctx, case):
+    if 'prog' in case:
+        return revchecks.direction_adjoint_fails(case)
     if 'fn' in case:
         return c01.run_case(ctx, case)
     return direction_fails(case)
@@ -69,6 +72,18 @@ def run(ctx):
         if len(ctx.samples) < 3 and nontrivial(case):
             ctx.samples.append(to_jsonable(case))
         f = direction_fails(case)
+        if f:
+            ctx.report(case, 'failure', f)
+    # reverse sweep: adjoints of direction p from a P-direction sweep == sweep of direction p alone
+    for i in range(120 if ctx.tier == 'quick' else 1500):
+        case = revchecks.make_case(ctx.rng, ctx.tier, P=ctx.rng.choice([2, 3]))
+        ctx.evaluations += 1
+        ctx.count('reverse-sweep')
+        h = canon_hash(to_jsonable(case))
+        if h not in ctx.hashes:
+            ctx.hashes.add(h)
+            ctx.nontrivial += 1
+        f = revchecks.direction_adjoint_fails(case)
         if f:
             ctx.report(case, 'failure', f)
     # tie of the modelled kernels: model on P directions and on each direction alone
